@@ -179,6 +179,10 @@ pub struct StructInfo {
 }
 
 pub fn udt_type(db: &[Col]) -> ColumnType<'static> {
+    // the column list `-:notudt` stands for a CQL type that is not a UDT at all (plain `int`)
+    if db.len() == 1 && db[0].ty == "notudt" {
+        return ColumnType::Native(NativeType::Int);
+    }
     ColumnType::UserDefinedType {
         frozen: false,
         definition: Arc::new(UserDefinedType {
